@@ -695,7 +695,12 @@ fn render_svg(args: &Args, tree: &usvg::Tree) -> Result<tiny_skia::Pixmap, Strin
             }
         }
 
-        let ts = args.fit_to.fit_to_transform(tree.size().to_int_size());
+        // Without `--export-area-page` the canvas is fitted to the node and not to the page.
+        let ts = if args.export_area_page {
+            args.fit_to.fit_to_transform(tree.size().to_int_size())
+        } else {
+            args.fit_to.fit_to_transform(bbox.size().to_int_size())
+        };
 
         resvg::render_node(node, ts, &mut pixmap.as_mut());
 
